@@ -209,6 +209,10 @@ type gate struct {
 	maxIn    int
 	sdCalls  int
 	behave   func(ctx context.Context, n int) error // free-running: latency / failure / timeout
+	okKind   int           // deterministic fragment, mode ok: 0 return nil; 1 sleep `slow` ignoring ctx (beyond the export timeout), then nil
+	errKind  int           // mode err: 0 plain error; 1 context.DeadlineExceeded at once; 2 honour ctx: wait for ctx.Done(), return ctx.Err()
+	slow     time.Duration
+	nSpans   int // spans handed over so far
 	perturb  func()
 }
 
@@ -245,7 +249,8 @@ func (g *gate) ExportSpans(ctx context.Context, spans []sdktrace.ReadOnlySpan) e
 	if g.inside > g.maxIn {
 		g.maxIn = g.inside
 	}
-	mode, rel := g.mode, g.release
+	mode, rel, okKind, errKind, slow := g.mode, g.release, g.okKind, g.errKind, g.slow
+	g.nSpans += len(spans)
 	g.rec.add(event{kind: evBegin, batch: b, d: d})
 	g.cond.Broadcast()
 	g.mu.Unlock()
@@ -255,7 +260,21 @@ func (g *gate) ExportSpans(ctx context.Context, spans []sdktrace.ReadOnlySpan) e
 	case g.behave != nil:
 		err = g.behave(ctx, len(spans))
 	case mode == modeErr:
-		err = errGate
+		switch errKind {
+		case 1:
+			err = context.DeadlineExceeded
+		case 2:
+			if _, has := ctx.Deadline(); has {
+				<-ctx.Done()
+				err = ctx.Err()
+			} else {
+				err = errGate // no export timeout configured: do not wait forever
+			}
+		default:
+			err = errGate
+		}
+	case mode == modeOK && okKind == 1:
+		time.Sleep(slow) // ignores ctx and overruns the export timeout; the export still counts
 	case mode == modeBlock:
 		<-rel // ignores ctx on purpose: only the harness releases it
 	}
@@ -281,6 +300,12 @@ func (g *gate) Shutdown(ctx context.Context) error {
 func (g *gate) setMode(m int) {
 	g.mu.Lock()
 	g.mode = m
+	g.mu.Unlock()
+}
+
+func (g *gate) setKinds(okKind, errKind int) {
+	g.mu.Lock()
+	g.okKind, g.errKind = okKind, errKind
 	g.mu.Unlock()
 }
 
@@ -338,17 +363,39 @@ type cfg struct {
 	blocking   bool
 }
 
+type rigOpts struct {
+	literalOpts bool // spell the options as a literal BatchSpanProcessorOption func setting the struct fields
+	nilExporter bool // NewBatchSpanProcessor(nil)
+}
+
 func newRig(c cfg, batchTimeout, exportTimeout time.Duration) *rig {
+	return newRigOpts(c, batchTimeout, exportTimeout, rigOpts{})
+}
+
+func newRigOpts(c cfg, batchTimeout, exportTimeout time.Duration, ro rigOpts) *rig {
 	rec := &recorder{}
 	g := newGate(rec)
-	opts := []sdktrace.BatchSpanProcessorOption{
-		sdktrace.WithMaxQueueSize(c.qcap), sdktrace.WithMaxExportBatchSize(c.maxb),
-		sdktrace.WithBatchTimeout(batchTimeout), sdktrace.WithExportTimeout(exportTimeout),
+	var opts []sdktrace.BatchSpanProcessorOption
+	if ro.literalOpts {
+		opts = append(opts, func(o *sdktrace.BatchSpanProcessorOptions) {
+			o.MaxQueueSize, o.MaxExportBatchSize = c.qcap, c.maxb
+			o.BatchTimeout, o.ExportTimeout = batchTimeout, exportTimeout
+			o.BlockOnQueueFull = c.blocking
+		})
+	} else {
+		opts = []sdktrace.BatchSpanProcessorOption{
+			sdktrace.WithMaxQueueSize(c.qcap), sdktrace.WithMaxExportBatchSize(c.maxb),
+			sdktrace.WithBatchTimeout(batchTimeout), sdktrace.WithExportTimeout(exportTimeout),
+		}
+		if c.blocking {
+			opts = append(opts, sdktrace.WithBlocking())
+		}
 	}
-	if c.blocking {
-		opts = append(opts, sdktrace.WithBlocking())
+	var exp sdktrace.SpanExporter = g
+	if ro.nilExporter {
+		exp = nil
 	}
-	bsp := sdktrace.NewBatchSpanProcessor(g, opts...)
+	bsp := sdktrace.NewBatchSpanProcessor(exp, opts...)
 	tp := sdktrace.NewTracerProvider(sdktrace.WithSampler(nameSampler{}), sdktrace.WithSpanProcessor(bsp))
 	return &rig{rec: rec, g: g, bsp: bsp, tp: tp, tracer: tp.Tracer("c01")}
 }
@@ -387,6 +434,7 @@ func (r *rig) end(id int, smp bool, variant int) {
 		snap := tracetest.SpanStub{Name: name, SpanContext: sc}.Snapshot()
 		t := r.rec.newCall()
 		r.rec.add(event{kind: evCall, t: t, op: opEnd, id: id, smp: smp})
+		r.bsp.OnStart(context.Background(), nil) // documented no-op
 		r.bsp.OnEnd(snap)
 		r.rec.add(event{kind: evRet, t: t, op: opEnd, id: id, smp: smp, ret: rNil})
 		return
@@ -408,22 +456,43 @@ func (r *rig) end(id int, smp bool, variant int) {
 	r.rec.add(event{kind: evRet, t: t, op: opEnd, id: id, smp: smp, ret: rNil})
 }
 
-func (r *rig) flush(ctx context.Context) int {
-	t := r.rec.newCall()
-	r.rec.add(event{kind: evCall, t: t, op: opFlush})
-	err := r.bsp.ForceFlush(ctx)
+// callRet maps the returned error to the enum.  RCtx means "the caller's context ended": a
+// context error handed back while the caller's context is still alive comes from the exporter
+// (export timeout, or an exporter returning context.DeadlineExceeded) and is ROther.
+func callRet(ctx context.Context, err error) (int, bool) {
 	x := ctx.Err() != nil
 	rv := classify(err)
+	if rv == rCtx && !x {
+		rv = rOther
+	}
+	return rv, x
+}
+
+// flush / shutdown: directly on the processor, or (via) through the TracerProvider.
+func (r *rig) flush(ctx context.Context, via ...bool) int {
+	t := r.rec.newCall()
+	r.rec.add(event{kind: evCall, t: t, op: opFlush})
+	var err error
+	if len(via) > 0 && via[0] {
+		err = r.tp.ForceFlush(ctx)
+	} else {
+		err = r.bsp.ForceFlush(ctx)
+	}
+	rv, x := callRet(ctx, err)
 	r.rec.add(event{kind: evRet, t: t, op: opFlush, ret: rv, expired: x})
 	return rv
 }
 
-func (r *rig) shutdown(ctx context.Context) int {
+func (r *rig) shutdown(ctx context.Context, via ...bool) int {
 	t := r.rec.newCall()
 	r.rec.add(event{kind: evCall, t: t, op: opShutdown})
-	err := r.bsp.Shutdown(ctx)
-	x := ctx.Err() != nil
-	rv := classify(err)
+	var err error
+	if len(via) > 0 && via[0] {
+		err = r.tp.Shutdown(ctx)
+	} else {
+		err = r.bsp.Shutdown(ctx)
+	}
+	rv, x := callRet(ctx, err)
 	r.rec.add(event{kind: evRet, t: t, op: opShutdown, ret: rv, expired: x})
 	return rv
 }
@@ -542,6 +611,8 @@ func main() {
 	w := vgen.NewWriter(o.Out, "C01.Types C01.Model C01.Spec C01.Corr", "case", 96)
 	w.Rule = "deterministic fragment: op lists (End sampled/unsampled, ForceFlush/Shutdown with live, cancelled and expiring contexts, gate exporter ok/err/block/unblock) over qcap 1..8, maxBatch 1..qcap+2, both queue modes, " +
 		"run on the real processor by one driver goroutine and compared with the model under the eager-worker schedule (returns, exported batches, drop counter); " +
+		"every program varies what the model does not see: span flag bytes (0x01/0x03/0x81/0xff vs 0x00/0x02/0x80/0xfe), End through the TracerProvider (root / child of a remote parent) or a tracetest snapshot handed to OnStart+OnEnd, ForceFlush/Shutdown on the processor or through the provider, options as With* or a literal option func, ExportTimeout 1h / 0 / 3ms with exporter flavours (plain error, context.DeadlineExceeded, honours ctx until the export timeout fires, sleeps through it); " +
+		"timer programs (BatchTimeout 1-2 ms, DWait) and flush-without-marker programs (helper goroutine left behind) are judged one-sidedly (CDetT: concatenation of batches, returns, spec_ok); NewBatchSpanProcessor(nil) scenarios are judged directly; " +
 		"free-running fragment: 2-16 producers x flushers x shutdown with random latency/failures/timeouts, recorded history judged by spec_ok; " +
 		"non-trivial = at least one export happened and (deterministic) the program contains a flush, a block or a drop, (free-running) a flush or shutdown returned nil under the guards"
 
